@@ -34,7 +34,7 @@ ASSUMPTIONS = [
     "Reader-side tables (tag -> class, keys read per class, defaults) are extracted from SVG.parse and property_by_values on every run.",
     "Trees built through constructors whose Group/Use nodes carry a transform that was not folded into the children are a known finding (R20.3b).",
 ]
-FLOORS = {"R20.1": 10, "R20.2": 8, "R20.3": 3, "R20.4": 4, "R20.6": 10, "R20.7": 6, "R20.8": 8}
+FLOORS = {"R20.1": 10, "R20.2": 8, "R20.3": 3, "R20.4": 4, "R20.6": 10, "R20.7": 6, "R20.8": 8, "R20.9": 2}
 
 GEOM = {
     "Ellipse": {"cx", "cy", "rx", "ry"},
@@ -80,6 +80,11 @@ def run(ctx):
     from . import c07
 
     c07.svg_d(ctx.renamed("R20.8"))
+    # every written matrix is transform * inverse(viewport transform); the reader multiplies the viewport transform back in
+    ctx.rule("R20.9", "the inverse the writer divides the viewport transform out with is the two-sided inverse of the product the reader uses (obligations shared with C04 R04.5)")
+    from . import c04
+
+    c04.inverse_rule(ctx, "R20.9")
 
 
 def emitted(ctx, body):
